@@ -178,9 +178,45 @@ def observe(case):
                 out['genome'] = [x.to_string().encode('latin1').hex() for x in s[gi]]
             except Exception as e:
                 out['genome'] = 'error:' + type(e).__name__ + str(e)[:80]
+            # sub-intervals in a shuffled order (three or more rows whose sort permutation is not its own inverse)
+            sub = _shuffled_intervals(case)
+            if sub:
+                try:
+                    g = bnp.Genome.from_file(path, filter_function=lambda x: True)
+                    s = g.read_sequence()
+                    gi = g.get_intervals(Interval.from_entry_tuples([(case['recs'][n][0].split()[0], a, b) for n, a, b in sub]))
+                    out['genome_iv'] = [x.to_string().encode('latin1').hex() for x in s[gi]]
+                except Exception as e:
+                    out['genome_iv'] = 'error:' + type(e).__name__ + str(e)[:80]
+        # the same path, another file: records in reverse order, index rebuilt by the library, same process
+        if len(case['recs']) >= 2 and not case['supplied'] and not case.get('chunk_k'):
+            try:
+                rev = dict(case, recs=case['recs'][::-1], final_newline=True)
+                open(path, 'wb').write(_file_bytes(rev))
+                os.remove(path + '.fai')
+                fb = bnp.open_indexed(path)
+                kb = list(fb.keys())
+                lb = fb.get_contig_lengths()
+                out['reopen'] = dict(keys=kb, lengths=[int(lb[k]) for k in kb], contigs=[bytes(fb[k].raw()).hex() for k in kb])
+            except Exception as e:
+                out['reopen'] = 'error:' + type(e).__name__
         return out
     finally:
         shutil.rmtree(d, ignore_errors=True)
+
+
+def _shuffled_intervals(case):
+    """(record, a, b) rows, rotated so that the row order is neither file order nor a product of swaps"""
+    if case['crlf'] or len(case['recs']) < 2:
+        return []
+    rows = []
+    for n, (name, seq, w) in enumerate(case['recs']):
+        L = len(seq)
+        rows += [(n, 0, L), (n, L // 2, L)] + ([(n, 1, min(L, 1 + w))] if L > 1 else [])
+    rows = rows[:7]
+    if len(rows) < 3:
+        return []
+    return rows[2:] + rows[:2]       # a rotation by two: its sort permutation is not an involution for >= 3 rows
 
 
 def _create_index_chunked(path, k):
@@ -275,10 +311,26 @@ def to_coq(case, o):
         shapes = clist(['{| s_name := %s; s_len := %s; s_width := %s; s_bytes := %s |}' % (hx(n.encode()), cz(L), cz(w), cz(b))
                         for (n, L, w), b in zip(_big_shapes(case['big']), sizes)])
         return ('{| k_recs := []; k_crlf := %s; k_file := []; k_supplied := true; k_index := []; k_lengths := []; '
-                'k_contigs := []; k_fetch := []; k_genome := []; k_chunk := 0; k_chunk_raw := []; k_chunk_err := false; '
+                'k_contigs := []; k_fetch := []; k_genome := []; k_genome_iv := []; k_reopen_lengths := []; k_reopen_contigs := []; k_chunk := 0; k_chunk_raw := []; k_chunk_err := false; '
                 'k_chunk_index := []; k_big_eollen := %s; k_big_shapes := %s; k_big_index := %s |}'
                 % (cbool(case['crlf']), cz(2 if case['crlf'] else 1), shapes, _idx_list(rows)))
     fai, lengths, contigs, fetch, genome = _obs_lists(case, o)
+    giv = []
+    if isinstance(o, dict) and 'genome_iv' in o:
+        sub = _shuffled_intervals(case)
+        g = o['genome_iv']
+        for k, (n, a, b) in enumerate(sub):
+            giv.append((n, a, b, g[k] if isinstance(g, list) and k < len(g) else 'ff'))
+    ro_l, ro_c = [], []
+    if isinstance(o, dict) and 'reopen' in o:
+        r = o['reopen']
+        if isinstance(r, dict) and r['keys'] == [x[0].split()[0] for x in case['recs'][::-1]]:
+            ro_l, ro_c = r['lengths'], r['contigs']
+        else:
+            ro_l, ro_c = [-1], ['ff']
+    extra = ('k_genome_iv := %s; k_reopen_lengths := %s; k_reopen_contigs := %s; ' % (
+        clist(['(%s, %s, %s, %s)' % (cz(n), cz(a), cz(b), hx(bytes.fromhex(gg))) for n, a, b, gg in giv], '(Z*Z*Z*list Z)'),
+        zl(ro_l), clist([hx(bytes.fromhex(c)) for c in ro_c], 'list Z')))
     tail = EMPTY_TAIL
     if case.get('chunk_k'):
         ch = o.get('chunk', 'error:missing') if 'error' not in o else 'error:open'
@@ -299,7 +351,7 @@ def to_coq(case, o):
                 clist([hx(bytes.fromhex(c)) for c in contigs], 'list Z'),
                 clist(['(%s, %s, %s, %s)' % (cz(n), cz(a), cz(b), hx(bytes.fromhex(g))) for n, a, b, g in fetch], '(Z*Z*Z*list Z)'),
                 clist(['(%s, %s)' % (cz(n), hx(bytes.fromhex(g))) for n, g in genome], '(Z*list Z)'))
-            + tail + ' |}')
+            + extra + tail + ' |}')
 
 
 def nontrivial(case, o):
